@@ -123,6 +123,33 @@ def Sub.rev (s : Sub K) : Option (Sub K) :=
     -- with no drawn segment the window is unchanged
     if s.drawn.isEmpty then some s else some ⟨move', drawn', close'⟩
 
+/-- `Subpath._reverse_segments` as the code runs it: two indices walk inwards from both ends; the
+    segment at the lower index is reversed and, unless it is the very same position, so is the one
+    at the upper index and the two are exchanged. `fuel` bounds the number of rounds (the length
+    suffices). -/
+def swapLoop : Nat → List (Seg K) → Option (List (Seg K))
+  | _, [] => some []
+  | _, [a] => (Seg.rev a).map fun a' => [a']
+  | 0, _ :: _ :: _ => none
+  | fuel + 1, a :: b :: rest =>
+    let z := (b :: rest).getLast (by simp)
+    let mid := (b :: rest).dropLast
+    match Seg.rev a, Seg.rev z, swapLoop fuel mid with
+    | some a', some z', some m' => some (z' :: (m' ++ [a']))
+    | _, _, _ => none
+
+/-- `Subpath.reverse()` with the loop above in place of its result -/
+def Sub.revLoop (s : Sub K) : Option (Sub K) :=
+  match swapLoop s.drawn.length s.drawn with
+  | none => none
+  | some drawn' =>
+    let newStart := s.lastEnd
+    let move' : Seg K := match s.move with
+      | .move st _ => .move st newStart
+      | m => m
+    let close' := s.close.map fun _ => Seg.close (some s.move.end_) newStart
+    if s.drawn.isEmpty then some s else some ⟨move', drawn', close'⟩
+
 /-- re-assembly `p += subpath` for each reversed window in reverse order: the first segment of each
     appended window is linked to the end of what is already there (`_validate_connection`);
     finally the very first segment's start is restored to `prepoint`. -/
@@ -147,7 +174,7 @@ def pathReverse (segs : List (Seg K)) : Option (List (Seg K)) :=
     match splitOwn segs with
     | none => none
     | some subs =>
-      match subs.mapM Sub.rev with
+      match subs.mapM Sub.revLoop with
       | none => none
       | some rs =>
         let out := relink none rs.reverse
@@ -173,7 +200,7 @@ def subReverseAt (segs : List (Seg K)) (i : Nat) : Option (List (Seg K)) :=
     match subs[i]? with
     | none => none
     | some s =>
-      match s.rev with
+      match s.revLoop with
       | none => none
       | some r =>
         let pre := (subs.take i).flatMap Sub.toList
